@@ -171,57 +171,70 @@ fn fill_ab(t: &mut RoutingTable) {
     place(t, node_aged(idb(0x40, 1, 0), addr(5, 7000), 1_000));
 }
 
+/// contract stub for Node::already_exists (its contract — the per-IP rule — is discharged on its full
+/// domain by common::node::verif_kani::c12_already_exists_is_the_per_ip_rule): an arbitrary verdict
+/// per existing node, chosen by the harness through the port of the node that "clashes".
+static mut CLASH_PORT: u16 = 0;
+static mut CLASH_CALLS: u32 = 0;
+fn stub_already_exists(_this: &Node, nodes: &[Node]) -> bool {
+    unsafe {
+        CLASH_CALLS += 1;
+        nodes.len() == 1 && nodes[0].address().port() == CLASH_PORT
+    }
+}
+
 #[kani::proof]
 #[kani::unwind(23)]
 #[kani::stub(std::time::Instant::now, clock::mock_now)]
 #[kani::stub(std::time::Instant::elapsed, clock::mock_elapsed)]
-#[kani::stub(Id::is_valid_for_ip, stub_is_valid_for_ip)]
 #[kani::stub(KBucket::add, stub_bucket_add)]
+#[kani::stub(Node::already_exists, stub_already_exists)]
 fn c12_table_add_guards_then_delegates_to_the_bucket_at_its_distance() {
     let mut t = RoutingTable::new(idb(0, 0, 0));
-    fill_ab(&mut t);
+    // A (port 7001) in bucket 160, B (port 7002) in bucket 159
+    place(&mut t, node_aged(idb(0x80, 1, 0), addr(2, 7001), 1_000));
+    place(&mut t, node_aged(idb(0x40, 1, 0), addr(5, 7002), 1_000));
     let b0: u8 = kani::any();
     let b1: u8 = kani::any();
-    let b19: u8 = kani::any();
-    let ip3: u8 = kani::any();
     kani::assume(b0 == 0 || b0 == 0x80 || b0 == 0x40 || b0 == 0x20);
-    kani::assume(b1 < 2 && b19 < 2);
+    kani::assume(b1 < 2);
+    let clash_port: u16 = kani::any();
+    kani::assume(clash_port == 0 || clash_port == 7001 || clash_port == 7002);
     let verdict: bool = kani::any();
-    unsafe { BADD_VERDICT = verdict };
-    let id = idb(b0, b1, b19);
-    let node = node_aged(id, addr(ip3, 1), 0);
+    unsafe {
+        BADD_VERDICT = verdict;
+        CLASH_PORT = clash_port;
+    }
+    let id = idb(b0, b1, 0);
+    let node = node_aged(id, addr(kani::any(), 1), 0);
     let ptr = Arc::as_ptr(&node.0) as usize;
-    let own = b0 == 0 && b1 == 0 && b19 == 0;
-    let secure = (b19 ^ ip3) & 1 == 1;
-    let _ = secure;
-    // clash with A (10.0.0.2, insecure): any OTHER id on that IP; with B (10.0.0.5, secure): another id
-    // on that IP sharing B's 21-bit prefix (0x40, 1, 0x55 & 0xf8)
-    let is_a = b0 == 0x80 && b1 == 1 && b19 == 0;
-    let is_b = b0 == 0x40 && b1 == 1 && b19 == 0;
-    let clash = (ip3 == 2 && !is_a) || (ip3 == 5 && !is_b && b0 == 0x40 && b1 == 1);
+    let own = b0 == 0 && b1 == 0;
+    let is_a = b0 == 0x80 && b1 == 1;
+    let is_b = b0 == 0x40 && b1 == 1;
+    // the per-IP rule is consulted for every OTHER entry: a clash with the node's own existing
+    // entry does not count (that entry is refreshed or refused by its bucket)
+    let clash = (clash_port == 7001 && !is_a) || (clash_port == 7002 && !is_b);
     let d = t.id.distance(&id);
     let r = t.add(node);
     let calls = unsafe { BADD_CALLS };
     if own {
         assert!(!r && calls == 0, "C12: the table never admits its own id");
     } else if clash {
-        assert!(!r && calls == 0, "C12: per-IP limits: an insecure node or a secure node with the same 21-bit prefix on that IP blocks the newcomer");
+        assert!(!r && calls == 0, "C12: per-IP limits: a node that clashes with another entry of the table is refused");
     } else {
         assert!(calls == 1 && r == verdict, "C12: otherwise the decision is the bucket's");
         assert!(unsafe { BADD_NODE } == ptr, "the node handed to the bucket is the incoming one");
-        match t.buckets.get(&d) {
-            Some(b) => assert!(b as *const KBucket as usize == unsafe { BADD_BUCKET }, "C12: every entry goes to the bucket matching its distance to the table's id"),
-            None => assert!(false, "bucket for the node's distance missing"),
-        }
-    }
-    if calls == 0 {
-        assert!(t.size() == 2, "a refused add changes nothing");
+        let bucket_addr = match d {
+            160 => t.buckets.get(&160).map(|b| b as *const KBucket as usize),
+            159 => t.buckets.get(&159).map(|b| b as *const KBucket as usize),
+            _ => t.buckets.get(&d).map(|b| b as *const KBucket as usize),
+        };
+        assert!(bucket_addr == Some(unsafe { BADD_BUCKET }), "C12: every entry goes to the bucket matching its distance to the table's id");
     }
     kani::cover!(own);
-    kani::cover!(clash && ip3 == 5);
-    kani::cover!(clash && ip3 == 2);
-    kani::cover!(!own && !clash && is_a, "a known node reaches its bucket's refresh rule");
-    kani::cover!(!own && !clash && ip3 == 5, "a secure-prefix-distinct node on B's IP is admitted");
+    kani::cover!(clash && clash_port == 7002);
+    kani::cover!(!own && !clash && is_a && clash_port == 7001, "a known node is not blocked by its own entry and reaches its bucket's refresh rule");
+    kani::cover!(!own && !clash && d == 158, "a stranger opens a new bucket");
     core::mem::forget(t);
 }
 
@@ -231,25 +244,32 @@ fn c12_table_add_guards_then_delegates_to_the_bucket_at_its_distance() {
 #[kani::stub(std::time::Instant::elapsed, clock::mock_elapsed)]
 fn c12_table_remove_removes_exactly_that_id() {
     let mut t = RoutingTable::new(idb(0, 0, 0));
-    fill_ab(&mut t);
-    place(&mut t, node_aged(idb(0x80, 0, 1), addr(9, 7000), 1_000)); // C, same bucket as A
-    let b0: u8 = kani::any();
-    let b1: u8 = kani::any();
-    let b19: u8 = kani::any();
-    kani::assume((b0 == 0 || b0 == 0x80 || b0 == 0x40 || b0 == 0x20) && b1 < 2 && b19 < 2);
-    let id = idb(b0, b1, b19);
-    let is_a = b0 == 0x80 && b1 == 1 && b19 == 0;
-    let is_b = b0 == 0x40 && b1 == 1 && b19 == 0;
-    let is_c = b0 == 0x80 && b1 == 0 && b19 == 1;
+    place(&mut t, node_aged(idb(0x80, 1, 0), addr(2, 7001), 1_000)); // A, bucket 160
+    place(&mut t, node_aged(idb(0x80, 0, 1), addr(9, 7003), 1_000)); // C, bucket 160
+    place(&mut t, node_aged(idb(0x40, 1, 0), addr(5, 7002), 1_000)); // B, bucket 159
+    let which: u8 = kani::any();
+    kani::assume(which < 4);
+    let id = match which {
+        0 => idb(0x80, 1, 0),
+        1 => idb(0x40, 1, 0),
+        2 => idb(0x80, 0, 1),
+        _ => idb(0x80, 1, 1), // a stranger that would live in bucket 160
+    };
     t.remove(&id);
-    let has = |t: &RoutingTable, d: u8, id: Id| match t.buckets.get(&d) { Some(b) => b.nodes.iter().any(|n| n.id() == &id), None => false };
-    assert!(has(&t, 160, idb(0x80, 1, 0)) == !is_a, "C12: remove removes the id and nothing else");
-    assert!(has(&t, 159, idb(0x40, 1, 0)) == !is_b);
-    assert!(has(&t, 160, idb(0x80, 0, 1)) == !is_c);
-    assert!(t.size() == 3 - if is_a || is_b || is_c { 1 } else { 0 }, "size agrees");
-    kani::cover!(is_a);
-    kani::cover!(is_b);
-    kani::cover!(!is_a && !is_b && !is_c);
+    let ports160 = match t.buckets.get(&160) {
+        Some(b) => (b.nodes.len(), if b.nodes.len() > 0 { b.nodes[0].address().port() } else { 0 }, if b.nodes.len() > 1 { b.nodes[1].address().port() } else { 0 }),
+        None => (0, 0, 0),
+    };
+    let len159 = match t.buckets.get(&159) { Some(b) => b.nodes.len(), None => 0 };
+    match which {
+        0 => assert!(ports160 == (1, 7003, 0) && len159 == 1, "C12: remove removes the id and nothing else"),
+        1 => assert!(ports160 == (2, 7001, 7003) && len159 == 0),
+        2 => assert!(ports160 == (1, 7001, 0) && len159 == 1),
+        _ => assert!(ports160 == (2, 7001, 7003) && len159 == 1, "removing an unknown id changes nothing"),
+    }
+    assert!(t.size() == if which == 3 { 3 } else { 2 }, "size agrees");
+    kani::cover!(which == 0);
+    kani::cover!(which == 3);
     core::mem::forget(t);
 }
 
@@ -291,31 +311,41 @@ fn c12_reset_id_rebuilds_the_table_through_add() {
     core::mem::forget(t);
 }
 
-/// size(), is_empty() and the iterator agree on every table over {A, B, C, D} (two per bucket)
+/// size(), is_empty() and the iterator agree: on a table of 3 nodes in 2 buckets plus an empty
+/// bucket, and again after every node was removed (empty buckets left behind). One node is optional.
+/// (Everything else concrete: with five optional nodes the 160-step bucket scan of the iterator
+/// exhausted 10 GB.)
 #[kani::proof]
 #[kani::unwind(163)]
 #[kani::stub(std::time::Instant::now, clock::mock_now)]
 #[kani::stub(std::time::Instant::elapsed, clock::mock_elapsed)]
 fn c12_size_iteration_and_is_empty_agree() {
     let mut t = RoutingTable::new(idb(0, 0, 0));
-    let mut want = 0usize;
-    if kani::any() { place(&mut t, node_aged(idb(0x80, 1, 0), addr(2, 1), 1_000)); want += 1; }
-    if kani::any() { place(&mut t, node_aged(idb(0x80, 0, 1), addr(3, 1), 1_000)); want += 1; }
-    if kani::any() { place(&mut t, node_aged(idb(0x01, 1, 0), addr(4, 1), 1_000)); want += 1; }
-    if kani::any() { place(&mut t, node_aged(idb(0x01, 0, 1), addr(5, 1), 1_000)); want += 1; }
-    // an empty bucket left behind by removals must not confuse is_empty()/iteration
-    if kani::any() { t.buckets.entry(7).or_default(); }
+    place(&mut t, node_aged(idb(0x80, 1, 0), addr(2, 1), 1_000));
+    place(&mut t, node_aged(idb(0x80, 0, 1), addr(3, 1), 1_000));
+    t.buckets.entry(7).or_default();
+    let third: bool = kani::any();
+    if third {
+        place(&mut t, node_aged(idb(0x01, 1, 0), addr(4, 1), 1_000));
+    }
+    let want = if third { 3 } else { 2 };
     assert!(t.size() == want, "C12: size counts every entry");
-    assert!(t.is_empty() == (want == 0), "C12: is_empty <=> size == 0");
+    assert!(!t.is_empty());
     let mut it = 0usize;
-    let mut seen80 = 0usize;
-    for n in t.nodes() {
+    for _ in t.nodes() {
         it += 1;
-        if n.id().as_bytes()[0] == 0x80 { seen80 += 1; }
     }
     assert!(it == want, "C12: iteration yields exactly size() nodes");
-    kani::cover!(want == 4 && seen80 == 2);
-    kani::cover!(want == 0);
+    t.remove(&idb(0x80, 1, 0));
+    t.remove(&idb(0x80, 0, 1));
+    t.remove(&idb(0x01, 1, 0));
+    assert!(t.size() == 0 && t.is_empty(), "C12: is_empty <=> size == 0, also with empty buckets left behind");
+    let mut it2 = 0usize;
+    for _ in t.nodes() {
+        it2 += 1;
+    }
+    assert!(it2 == 0);
+    kani::cover!(third);
     core::mem::forget(t);
 }
 
